@@ -25,6 +25,7 @@ func genCaseC08(t *rapid.T) *c08Case {
 	base.Doc, base.Vars = d, vars
 	base.Op = d.Ops[0].Name
 	base.LateRegister = rapid.IntRange(0, 3).Draw(t, "lateRegister") == 0
+	base.ViaAPI = rapid.IntRange(0, 3).Draw(t, "schemaViaGoAPI") == 0
 	cc := &c08Case{Base: base, Bind: bind}
 	cc.Configs = append(cc.Configs, uniform(base, "X", false, "reflection", false))
 	var tnames []string
@@ -83,6 +84,9 @@ func TestC08(t *testing.T) {
 	defer run.Flush()
 	classes := func(c *Case, exp *hx.Expect, bind map[string]UBinding) (bool, []string) {
 		cl := []string{"config=" + c.Note, fmt.Sprintf("registered-after-first-use=%v", c.LateRegister)}
+		if c.ViaAPI {
+			cl = append(cl, "schema-built-with-the-go-api")
+		}
 		for tn, b := range bind {
 			fam := "X"
 			for _, n := range c.Graph.Nodes {
@@ -140,15 +144,105 @@ func TestC08(t *testing.T) {
 		if err := hx.LoadCase(f, &c); err != nil {
 			t.Fatalf("load %s: %v", f, err)
 		}
+		if !c.Universe {
+			ds, _, _, _ := checkFull(&c, "C08")
+			run.Case(hx.Hash(&c), true, "config=generated-schema-reflection")
+			for _, d := range ds {
+				if d.Sig != "" {
+					fmt.Printf("REPLAY-KNOWN sig=%s %s\n", d.Sig, hx.Trunc(d.Detail, 400))
+				}
+			}
+			if real := run.Triage(ds); len(real) > 0 {
+				t.Fatalf("REPLAY-FAIL C08 violated (generated schema): %s", run.ReportFailure(&c, real))
+			}
+			return
+		}
 		one(func(f string, a ...interface{}) { t.Fatalf("REPLAY-FAIL "+f, a...) }, &c, nil)
 		return
 	}
 	rapid.Check(t, func(rt *rapid.T) {
+		if rapid.IntRange(0, 3).Draw(rt, "generatedSchema") == 0 {
+			// second scenario: a generated schema (interfaces whose fields are themselves of abstract
+			// types, implementers that narrow them differently) over Go structs made for it, every
+			// object type registered; the oracle is the reference executor
+			c := genCaseC08Generated(rt)
+			ds, exp, res, _ := checkFull(c, "C08")
+			cl := []string{"config=generated-schema-reflection"}
+			if c.ViaAPI {
+				cl = append(cl, "schema-built-with-the-go-api")
+			}
+			nt := false
+			if exp != nil && !exp.Rejected {
+				if exp.T.AbstractHops > 0 {
+					cl = append(cl, "abstract-field-resolved")
+				}
+				if exp.T.FragMismatch > 0 {
+					cl = append(cl, "fragment-cond-differs-and-applies")
+				}
+				if exp.T.Typename > 0 {
+					cl = append(cl, "__typename")
+				}
+				if covariantFieldSelected(c) {
+					cl = append(cl, "field-declared-with-different-types-by-implementers-selected")
+				}
+				nt = exp.T.AbstractHops > 0
+			}
+			run.Case(hx.Hash(c), nt, cl...)
+			run.Sample(func() interface{} { return sampleCase(c, res) })
+			if real := run.Triage(ds); len(real) > 0 {
+				rt.Fatalf("C08 violated (generated schema): %s", run.ReportFailure(c, real))
+			}
+			return
+		}
 		cc := genCaseC08(rt)
 		for _, cf := range cc.Configs {
 			one(rt.Fatalf, applyConfigC08(cc.Base, cf), cc.Bind)
 		}
 	})
+}
+
+func genCaseC08Generated(t *rapid.T) *Case {
+	p := Profile{Strategy: "X", MaxDepth: rapid.IntRange(2, 5).Draw(t, "maxDepth"), Abstract: true}
+	s := GenSchema(t, p)
+	g := GenGraph(t, s, p, nil)
+	d, vars := GenDoc(t, s, p, false)
+	c := &Case{Schema: s, Graph: g, Doc: d, Vars: vars, Layout: GenLayout(t), ListSeed: rapid.IntRange(0, 1<<20).Draw(t, "listSeed")}
+	c.Assign, c.AnyInstalled = GenAssign(t, g, "X")
+	c.Warm = GenWarm(t, s, p)
+	c.Op = d.Ops[0].Name
+	c.ViaAPI = rapid.IntRange(0, 3).Draw(t, "schemaViaGoAPI") == 0
+	for _, td := range s.Types {
+		if td.Kind == hx.KObject {
+			c.Register = append(c.Register, td.Name)
+		}
+	}
+	return c
+}
+
+// covariantFieldSelected: the document selects a field that two object types of the schema declare
+// with different types.
+func covariantFieldSelected(c *Case) bool {
+	differs := map[string]bool{}
+	seen := map[string]string{}
+	for _, td := range c.Schema.Types {
+		if td.Kind != hx.KObject {
+			continue
+		}
+		for _, f := range td.Fields {
+			ts := f.Type.String()
+			if prev, ok := seen[f.Name]; ok && prev != ts {
+				differs[f.Name] = true
+			}
+			seen[f.Name] = ts
+		}
+	}
+	hit := false
+	c.Doc.Walk(func(sel *hx.Sel, depth int) {
+		if sel.Kind == "field" && differs[sel.Name] {
+			hit = true
+		}
+	})
+	return hit
 }
 
 // condKinds classifies the fragments that were evaluated: "<container kind>/<condition kind>".
